@@ -32,6 +32,7 @@ type Finding struct {
 type relation struct {
 	kind  string
 	check func(a []float64) (ok bool, detail, label string)
+	fixed func() [][]float64 // deterministic arguments evaluated on every run (boundary grids), before the random ones
 }
 
 func relErr(a, b, scale float64) float64 {
@@ -53,7 +54,7 @@ var relations = []relation{
 		lab := gammaMethod(a, x, true, false) + "|" + gammaMethod(a, x, true, true)
 		ok := finite(p) && finite(q) && math.Abs(p+q-1) <= 1e-12 && p >= -1e-15 && q >= -1e-15 && p <= 1+1e-15 && q <= 1+1e-15
 		return ok, fmt.Sprintf("GammaP=%v GammaQ=%v sum=%v", p, q, p+q), lab
-	}},
+	}, nil},
 	{"Lower+Upper=Gamma", func(v []float64) (bool, string, string) {
 		a, x := v[0], v[1]
 		l, u, g := sp.GammaLower(a, x), sp.GammaUpper(a, x), math.Gamma(a)
@@ -63,7 +64,7 @@ var relations = []relation{
 		}
 		ok := finite(l) && finite(u) && math.Abs(l+u-g) <= 1e-11*g && l >= -1e-15*g && u >= -1e-15*g
 		return ok, fmt.Sprintf("GammaLower=%v GammaUpper=%v Gamma(a)=%v", l, u, g), lab
-	}},
+	}, nil},
 	{"P(a,x)-P(a+1,x)=x^a e^-x/Gamma(a+1)", func(v []float64) (bool, string, string) {
 		a, x := v[0], v[1]
 		p0, p1 := sp.GammaP(a, x), sp.GammaP(a+1, x)
@@ -73,7 +74,7 @@ var relations = []relation{
 		scale := math.Abs(p0) + math.Abs(p1) + t
 		ok := finite(p0) && finite(p1) && math.Abs(p0-p1-t) <= 1e-11*(1+(a+x)/16)*scale+1e-300
 		return ok, fmt.Sprintf("P(a)=%v P(a+1)=%v term=%v", p0, p1, t), lab
-	}},
+	}, nil},
 	{"dP/dx=x^(a-1)e^-x/Gamma(a)", func(v []float64) (bool, string, string) {
 		a, x := v[0], v[1]
 		d := sp.GammaPfirstDerivative(a, x)
@@ -86,7 +87,7 @@ var relations = []relation{
 		t2 := ((a-1)/x - 1) * t
 		ok := relErr(d, t, t) <= 1e-10*(1+(a+x)/16) && math.Abs(d2-t2) <= 1e-10*(1+(a+x)/16)*t*(math.Abs((a-1)/x)+1)
 		return ok, fmt.Sprintf("dP=%v expected=%v d2P=%v expected=%v", d, t, d2, t2), "dP"
-	}},
+	}, nil},
 	{"psi(x+1)=psi(x)+1/x", func(v []float64) (bool, string, string) {
 		x := v[0]
 		if math.IsInf(condPole(x), 1) {
@@ -96,7 +97,7 @@ var relations = []relation{
 		scale := math.Abs(p0) + math.Abs(p1) + 1/math.Abs(x)
 		ok := finite(p0) && finite(p1) && math.Abs(p1-p0-1/x) <= 1e-12*scale*(1+condPole(x))
 		return ok, fmt.Sprintf("psi(x)=%v psi(x+1)=%v 1/x=%v", p0, p1, 1/x), "digamma"
-	}},
+	}, nil},
 	{"psi_n(x+1)=psi_n(x)+(-1)^n n!/x^(n+1)", func(v []float64) (bool, string, string) {
 		n, x := int(v[0]), v[1]
 		if math.IsInf(condPole(x), 1) {
@@ -114,7 +115,7 @@ var relations = []relation{
 		}
 		ok := !pp0 && !pp1 && finite(p0) && finite(p1) && math.Abs(p1-p0-t) <= 1e-11*scale*(1+condPole(x))
 		return ok, fmt.Sprintf("psi_n(x)=%v psi_n(x+1)=%v term=%v", p0, p1, t), fmt.Sprintf("polygamma n=%d", n)
-	}},
+	}, nil},
 	{"I(v-1,x)-I(v+1,x)=(2v/x)I(v,x)", func(v []float64) (bool, string, string) {
 		nu, x := v[0], v[1]
 		im, pm := safe(func() float64 { return sp.BesselI(nu-1, x) })
@@ -127,7 +128,7 @@ var relations = []relation{
 		}
 		ok := !pm && !p0 && !pp && finite(scale) && math.Abs(im-ip-2*nu/x*i0) <= 1e-11*(1+x/8+math.Abs(nu)/4)*scale
 		return ok, fmt.Sprintf("I(v-1)=%v I(v)=%v I(v+1)=%v", im, i0, ip), lab
-	}},
+	}, nil},
 	{"LogBesselI=log(BesselI)", func(v []float64) (bool, string, string) {
 		nu, x := v[0], v[1]
 		i0, p0 := safe(func() float64 { return sp.BesselI(nu, x) })
@@ -139,7 +140,7 @@ var relations = []relation{
 		}
 		ok := !p1 && math.Abs(l0-math.Log(i0)) <= 1e-11*(1+math.Abs(math.Log(i0))+x/8+math.Abs(nu)/4)
 		return ok, fmt.Sprintf("log(BesselI)=%v LogBesselI=%v", math.Log(i0), l0), lab
-	}},
+	}, nil},
 	{"LogErfc=log(erfc)", func(v []float64) (bool, string, string) {
 		x := v[0]
 		l := sp.LogErfc(x)
@@ -153,7 +154,7 @@ var relations = []relation{
 		r := math.Log(e)
 		ok := finite(l) && math.Abs(l-r) <= 4e-13*(math.Abs(r)+1e-3)*(1+x*x)
 		return ok, fmt.Sprintf("LogErfc=%v log(erfc)=%v", l, r), "logerfc"
-	}},
+	}, nil},
 	{"LogAdd/LogSub", func(v []float64) (bool, string, string) {
 		a, b := v[0], v[1]
 		s := la.LogAdd(a, b)
@@ -168,6 +169,76 @@ var relations = []relation{
 			ok = ok && math.Abs(la.LogAdd(d, lo)-hi) <= 1e-13*(1+math.Abs(hi)+1/(hi-lo))
 		}
 		return ok, fmt.Sprintf("LogAdd=%v expected=%v LogSub=%v", s, r, d), "logarithmetic"
+	}, nil},
+	// round 2: continuity / monotonicity of the incomplete gamma functions across every method-selection boundary.
+	// Needs no closed form: the three values at x-ulp, x, x+ulp (and a-ulp, a, a+ulp) may differ only by the
+	// rounding noise of the kernels plus density * ulp; a swap of P and Q on a measure-zero set is a jump.
+	{"igamma continuous across method boundaries", func(v []float64) (bool, string, string) {
+		a, x := v[0], v[1]
+		lg, _ := math.Lgamma(a)
+		dens := math.Exp((a-1)*math.Log(x) - x - lg)
+		g := math.Gamma(a)
+		cond := 1 + (a+x)/16
+		type fdef struct {
+			name  string
+			f     func(a, x float64) float64
+			scale float64
+		}
+		fs := []fdef{{"GammaP", sp.GammaP, 1}, {"GammaQ", sp.GammaQ, 1}}
+		if finite(g) && g < 1e300 && dens*g < 1e300 {
+			fs = append(fs, fdef{"GammaLower", sp.GammaLower, g}, fdef{"GammaUpper", sp.GammaUpper, g})
+		}
+		lab := gammaMethod(a, math.Nextafter(x, 0), true, false) + "|" + gammaMethod(a, x, true, false) + "|" + gammaMethod(a, math.Nextafter(x, math.Inf(1)), true, false)
+		for _, fd := range fs {
+			f0, fm, fp := fd.f(a, x), fd.f(a, math.Nextafter(x, 0)), fd.f(a, math.Nextafter(x, math.Inf(1)))
+			m := math.Max(math.Abs(f0), math.Max(math.Abs(fm), math.Abs(fp)))
+			ux := math.Nextafter(x, math.Inf(1)) - x
+			slack := 256*ulp*cond*m + 4*dens*fd.scale*ux + 1e-300
+			if !(finite(f0) && finite(fm) && finite(fp)) || math.Abs(fp-f0) > slack || math.Abs(f0-fm) > slack {
+				return false, fmt.Sprintf("%s(%v, x-ulp | x | x+ulp) = %v | %v | %v, allowed jump %v", fd.name, a, fm, f0, fp, slack), lab
+			}
+			am, ap := fd.f(math.Nextafter(a, 0), x), fd.f(math.Nextafter(a, math.Inf(1)), x)
+			ua := math.Nextafter(a, math.Inf(1)) - a
+			slackA := 256*ulp*cond*m + 16*ua*(1+math.Abs(math.Log(x))+math.Abs(math.Log(a)))*math.Max(m, fd.scale*math.Min(1, dens*x*8)) + 1e-300
+			if !(finite(am) && finite(ap)) || math.Abs(ap-f0) > slackA || math.Abs(f0-am) > slackA {
+				return false, fmt.Sprintf("%s(a-ulp | a | a+ulp, %v) = %v | %v | %v at a = %v, allowed jump %v", fd.name, x, am, f0, ap, a, slackA), lab
+			}
+		}
+		return true, "", lab
+	}, igammaBoundaryGrid},
+	// round 2: three-term recurrence of I_v in the LOG domain (orders v-2, v, v+2 have the same sign), valid where
+	// the plain variant overflows / underflows:  I(v-2)/I(v) = 1 + (2(v-1)/x) (2v/x + (x/(2(v+1))) (1 - I(v+2)/I(v)))
+	{"LogBesselI three-term recurrence (log domain)", func(v []float64) (bool, string, string) {
+		nu, x := v[0], v[1]
+		lm, pm := safe(func() float64 { return sp.LogBesselI(nu-2, x) })
+		l0, p0 := safe(func() float64 { return sp.LogBesselI(nu, x) })
+		lp, pp := safe(func() float64 { return sp.LogBesselI(nu+2, x) })
+		lab := besselLabel(nu-2, x) + "|" + besselLabel(nu, x) + "|" + besselLabel(nu+2, x)
+		if pm || p0 || pp {
+			return false, "panic", lab
+		}
+		if math.IsNaN(lm) || math.IsNaN(l0) || math.IsNaN(lp) || math.IsInf(l0, 0) {
+			return true, "", lab // negative values: the logarithm is undefined
+		}
+		rp := math.Exp(lp - l0)
+		rhs := 1 + (2*(nu-1)/x)*(2*nu/x+(x/(2*(nu+1)))*(1-rp))
+		if !(rhs > 0) || !finite(rhs) || !finite(rp) {
+			return true, "", lab
+		}
+		d := lm - l0 - math.Log(rhs)
+		ok := math.Abs(d) <= 1e-10*(1+math.Abs(nu)/4+x/8+math.Abs(lm)+math.Abs(l0))
+		return ok, fmt.Sprintf("LogBesselI(v-2 | v | v+2) = %v | %v | %v, residual %v", lm, l0, lp, d), lab
+	}, func() [][]float64 {
+		var out [][]float64
+		for _, x := range []float64{0.5, 1, 3, 10, 40, 200} {
+			for n := 20; n <= 400; n += 10 {
+				out = append(out, []float64{float64(n) + 0.5, x}, []float64{-(float64(n) + 0.5), x})
+			}
+			for _, w := range []float64{150.3, 200.3, 250.7, 400.25, 33.3, 80.3} {
+				out = append(out, []float64{w, x}, []float64{-w, x})
+			}
+		}
+		return out
 	}},
 	{"zeta", func(v []float64) (bool, string, string) {
 		s := v[0]
@@ -188,7 +259,7 @@ var relations = []relation{
 			return ok, fmt.Sprintf("Zeta=%v direct=%v", z, sum), "zeta:s>=2"
 		}
 		return ok, fmt.Sprintf("Zeta=%v", z), "zeta"
-	}},
+	}, nil},
 }
 
 // distance-to-pole conditioning for the psi relations on the negative axis
@@ -298,6 +369,25 @@ func genArgs(kind string, r *Rng) []float64 {
 			x = logUniform(r, 700, 1e6)
 		}
 		return []float64{v, x}
+	case "igamma continuous across method boundaries":
+		// the diagonal x == a (Temme: `x >= a`) at arbitrary non-integer a, and the sigma / 20/a boundaries
+		a := logUniform(r, 20, 1200)
+		if r.Intn(3) == 0 {
+			a = math.Round(a*2) / 2
+		}
+		switch r.Intn(4) {
+		case 0:
+			return []float64{a, a * (1 + 0.4*(float64(r.Intn(2))*2-1))}
+		case 1:
+			return []float64{a, a * (1 + math.Sqrt(20/a)*(float64(r.Intn(2))*2-1))}
+		}
+		return []float64{a, a}
+	case "LogBesselI three-term recurrence (log domain)":
+		v := logUniform(r, 3, 600)
+		if r.Intn(2) == 0 {
+			v = -v
+		}
+		return []float64{v, logUniform(r, 0.05, 2000)}
 	case "LogErfc=log(erfc)":
 		switch r.Intn(4) {
 		case 0:
@@ -334,8 +424,17 @@ func runSweep(o Opts) {
 	nfail := map[string]int{}
 	for _, rel := range relations {
 		r := rng.Split()
-		for i := 0; i < per; i++ {
-			args := genArgs(rel.kind, r)
+		var fixed [][]float64
+		if rel.fixed != nil {
+			fixed = rel.fixed()
+		}
+		for i := 0; i < per+len(fixed); i++ {
+			var args []float64
+			if i < len(fixed) {
+				args = fixed[i]
+			} else {
+				args = genArgs(rel.kind, r)
+			}
 			ok, detail, label := rel.check(args)
 			counts[rel.kind]++
 			if !ok {
@@ -370,6 +469,9 @@ func anchorOracle(fn string, h, k int, x float64) (ok bool, obs, ref float64, la
 		obs, ref, label = sp.GammaUpper(a, x), pqRef(h, x, true)*gammaH(h), gammaMethod(a, x, false, true)
 	case "GammaPfirstDerivative":
 		obs, ref, label = sp.GammaPfirstDerivative(a, x), dPH(h, x), "dP"
+		if finite(ref) {
+			return finite(obs) && math.Abs(obs-ref) <= tol*math.Abs(ref)+0x1p-1070, obs, ref, label
+		}
 	case "GammaPsecondDerivative":
 		obs, ref, label = sp.GammaPsecondDerivative(a, x), ((a-1)/x-1)*dPH(h, x), "d2P"
 		if math.Abs(obs-ref) <= tol*dPH(h, x)*(math.Abs((a-1)/x)+1) {
@@ -404,6 +506,23 @@ func anchorOracle(fn string, h, k int, x float64) (ok bool, obs, ref float64, la
 		ref = iHalf(n, x, v < 0)
 		label = besselLabel(v, x)
 		var p bool
+		if n >= 20 {
+			// large order: log-domain reference (the float64 recurrence is unstable there)
+			lr, sg := lnIHalfRef(n, x, v < 0)
+			if fn == "BesselI" {
+				obs, p = safe(func() float64 { return sp.BesselI(v, x) })
+				if lr > 709.78 {
+					return !p && math.IsInf(obs, int(sg)), obs, sg * math.Inf(1), label
+				}
+				ref = sg * math.Exp(lr)
+				return !p && math.Abs(obs-ref) <= 1e-7*math.Abs(ref)+1e-300, obs, ref, label
+			}
+			obs, p = safe(func() float64 { return sp.LogBesselI(v, x) })
+			if sg < 0 {
+				return !p && math.IsNaN(obs), obs, math.NaN(), label
+			}
+			return !p && math.Abs(obs-lr) <= 1e-7*(1+math.Abs(lr)), obs, lr, label
+		}
 		if fn == "BesselI" {
 			obs, p = safe(func() float64 { return sp.BesselI(v, x) })
 		} else {
@@ -422,6 +541,16 @@ func anchorOracle(fn string, h, k int, x float64) (ok bool, obs, ref float64, la
 			return false, obs, ref, label
 		}
 		tol = 1e-7 // the float64 recurrence loses digits for small x
+	case "Zeta":
+		obs, label = sp.Zeta(x), "zeta"
+		if x > 0 {
+			ref = math.Abs(bernF(int(x))) * math.Pow(2*math.Pi, x) / (2 * math.Gamma(x+1))
+		} else if x == 0 {
+			ref = -0.5
+		} else {
+			ref = -bernF(int(1-x)) / (1 - x)
+		}
+		return finite(obs) && math.Abs(obs-ref) <= tol*math.Abs(ref), obs, ref, label
 	case "LogErfc":
 		obs, ref, label = sp.LogErfc(x), math.Log(math.Erfc(x)), "logerfc"
 		if x > 8 {
@@ -476,6 +605,20 @@ func igammaPred(fn string, h int, x, obs float64) string {
 		return "series-init-dropped:small-a-upper"
 	case !upper && near(obs, truth-xa):
 		return "series-init-dropped:small-a-lower"
+	}
+	return ""
+}
+
+// which known inaccuracy of the P-derivative helpers does an observation reproduce?
+// "prefix-subnormal": regularised_gamma_prefix = obs*x is a subnormal (non-zero, so the `f1 == 0` log path
+// is not taken) and the result inherits its few significant bits (relative error between 1e-13 and 1e-2).
+func derivPred(fn string, h int, x, obs, ref float64) string {
+	if fn != "GammaPfirstDerivative" || !finite(obs) || ref == 0 {
+		return ""
+	}
+	re := math.Abs(obs-ref) / math.Abs(ref)
+	if x < 1 && math.Abs(ref)*x < 0x1p-1022 && math.Abs(ref)*x > 0 && re > 1e-13 && re < 1e-2 {
+		return "prefix-subnormal"
 	}
 	return ""
 }
@@ -562,6 +705,9 @@ func huntAnchor(a Anchor) HuntEntry {
 	e.Failure = fmt.Sprintf("%s(h/2=%v, x=%v) = %v, closed form %v", a.Fn, float64(h)/2, x, obs, ref)
 	if a.Fam == "igamma" {
 		e.Pred = igammaPred(a.Fn, h, x, obs)
+	}
+	if a.Fam == "igamma-deriv" {
+		e.Pred = derivPred(a.Fn, h, x, obs, ref)
 	}
 	return e
 }
@@ -695,6 +841,9 @@ func runCorpus(o Opts, path string) {
 			if !ok {
 				e.Fails, e.Label, e.ArgsDec = true, label, decs(args)
 				e.Failure = fmt.Sprintf("%s(h/2=%v, x=%v) = %v, closed form %v", e.Fn, float64(e.H)/2, args[0], obs, ref)
+				if e.Kind == "igamma-deriv" {
+					e.Pred = derivPred(e.Fn, e.H, args[0], obs, ref)
+				}
 				fails = append(fails, e)
 			}
 		}
@@ -717,6 +866,27 @@ func splitLines(s string) []string {
 	}
 	if cur != "" {
 		out = append(out, cur)
+	}
+	return out
+}
+
+// arguments on / next to every comparison constant of gamma_incomplete_imp (see astpass.go)
+func igammaBoundaryGrid() [][]float64 {
+	as := []float64{0.25, 0.5, 0.75, 1, 1.5, 2, 5, 9.5, 10, 19.5, 20, math.Nextafter(20, 21), 20.5, 21, 29, 29.5, math.Nextafter(30, 0), 30, 30.5, 31, 50, 100,
+		169, 169.5, 170, 171, 199.5, 200, math.Nextafter(200, 201), 200.5, 201, 300, 320, 500, 1000}
+	var out [][]float64
+	for _, a := range as {
+		xs := []float64{epsF, 0.2, 0.5, 0.6, 1.1, a - 1, a, a * 0.6, a * 1.4, a * (1 - math.Sqrt(20/a)), a * (1 + math.Sqrt(20/a)), m24Boundary(a), 4 * a, a / 4, maxLog}
+		if a > 1 {
+			xs = append(xs, -0.4/math.Log(0.3), a/0.75)
+		} else {
+			xs = append(xs, math.Exp(-0.4/a), a/0.75)
+		}
+		for _, x := range xs {
+			if x > 0 && finite(x) {
+				out = append(out, []float64{a, x})
+			}
+		}
 	}
 	return out
 }
